@@ -105,6 +105,8 @@ class Session:
         self.oplog = {"c2s": [], "s2c": []}
         # half of the sessions run with the qlog trace attached (logging must not change what is delivered)
         self.with_logger = self.h.chance(0.5)
+        if FORCE_LOGGER[0] is not None:  # checks.c20 (variant h3) runs the same session with the trace off and on
+            self.with_logger = FORCE_LOGGER[0]
         self.qc = FakeQuic(True, logger=self.with_logger)
         self.qs = FakeQuic(False, logger=self.with_logger)
         self.hc = H3Connection(self.qc, enable_webtransport=self.wt)
@@ -345,6 +347,7 @@ def local_send(h3, op):
         h3.send_data(op[1], op[2], end_stream=op[3])
 
 
+FORCE_LOGGER = [None]
 LOGGER_ON_DELIVERY = [False]  # set per run by run_one (the receiving connections log too when the session did)
 
 
